@@ -49,6 +49,11 @@ def switch_table(f, sw=None):
         sw = sws[0]
     real = [x for x in sw["c"] if x is not None]
     body = real[-1]
+    if not any(x["k"] == "ReturnStmt" for x in facts.walk(body)):
+        # arms that only assign a result variable returned after the switch: the function is executed instead
+        t = table_by_evaluation(f)
+        if t is not None:
+            return t[0], t[1], sw
     groups = []
     cur = None
 
@@ -131,8 +136,15 @@ def table_by_evaluation(f):
     vals = sorted(set(en["v"] for en in db.enums[pt["name"]]["enumerators"]))
     outside = max(vals) + 1 if vals else 0
 
+    def no_user_types(e):
+        # the registry of user-defined PDU types is empty at analysis time (assumption of C03 / C13: user-defined layers are
+        # not part of the quantifier)
+        if e["k"] == "CallExpr" and (e.get("cname") or "") == "pdu_type_registered":
+            return 0
+        return None
+
     def run(v):
-        r = ieval.run_body(f, f["body"], {pv: v, "__db__": db})
+        r = ieval.run_body(f, f["body"], {pv: v, "__db__": db, "__termfn__": no_user_types})
         if r is None:
             raise ieval.Unknown("no value returned")
         oc = ("const", int(r), names.get(int(r)))
